@@ -53,6 +53,51 @@ fn run_one<T: Ord + Clone + std::fmt::Debug + std::hash::Hash>(c: &Case, vals: V
     });
 }
 
+/// The crate's own ordered element type: `NotNone<i32>` (what a lane of `Option<i32>` becomes once its
+/// missing values are removed). It implements the comparison operators by hand, so "generic over
+/// Ord" does not cover it: the same patterns are partitioned through it.
+fn run_notnone(c: &Case, lx: &mut Local) {
+    use ndarray_stats::MaybeNan;
+    let spread: [i32; 10] = [-7, 0, 3, 10, 11, 12, 100, 101, 1000, 5000];
+    let vals: Vec<i32> = c.pat.iter().map(|&r| spread[r as usize]).collect();
+    let n = vals.len();
+    let pv = vals[c.pivot];
+    lx.single(|lx| {
+        let opt: Vec<Option<i32>> = vals.iter().map(|&v| Some(v)).collect();
+        let mut h = Host1::new(&opt, c.step, 2, Some(-99));
+        let r = guarded(|| {
+            let view = h.view_mut();
+            let mut nn = <Option<i32> as MaybeNan>::remove_nan_mut(view);
+            if nn.len() != n {
+                return Err(format!("remove_nan_mut kept {} of {} non-missing elements", nn.len(), n));
+            }
+            let k = nn.partition_mut(c.pivot);
+            Ok((k, nn.iter().map(|x| **x).collect::<Vec<i32>>()))
+        });
+        match &r {
+            Err(msg) => lx.fail("C15/in-range-panic", || format!("NotNone<i32>: partition_mut({}) on {:?} (step {}) panicked: {}", c.pivot, vals, c.step, msg)),
+            Ok(Err(m)) => lx.fail("C15/notnone-setup", || format!("{} on {:?}", m, vals)),
+            Ok(Ok((k, after))) => {
+                let k = *k;
+                let rank = vals.iter().filter(|x| **x < pv).count();
+                lx.check(k == rank, "C15/wrong-rank", || format!("NotNone<i32>: partition_mut({}) on {:?} returned {} but {} elements are smaller than the pivot value {}", c.pivot, vals, k, rank, pv));
+                if k < n {
+                    lx.check(after[k] == pv, "C15/pivot-not-at-k", || format!("NotNone<i32>: after partition_mut({}) on {:?}: a[{}]={}, pivot value {}; array {:?}", c.pivot, vals, k, after[k], pv, after));
+                    lx.check(after[..k].iter().all(|x| *x < pv), "C15/left-not-smaller", || format!("NotNone<i32>: {:?} pivot {} -> k={} array {:?}", vals, c.pivot, k, after));
+                    lx.check(after[k + 1..].iter().all(|x| *x >= pv), "C15/right-not-geq", || format!("NotNone<i32>: {:?} pivot {} -> k={} array {:?}", vals, c.pivot, k, after));
+                } else {
+                    lx.fail("C15/index-out-of-range", || format!("NotNone<i32>: returned {} for length {}", k, n));
+                }
+                let (mut a, mut b) = (vals.clone(), after.clone());
+                a.sort();
+                b.sort();
+                lx.check(a == b, "C15/multiset-changed", || format!("NotNone<i32>: {:?} pivot {} -> {:?}", vals, c.pivot, after));
+            }
+        }
+        hash_of(&r.ok())
+    });
+}
+
 fn main() {
     let mut rep = Report::new("C15");
     let nmax = rep.cfg.pick(8, 9);
@@ -73,7 +118,7 @@ fn main() {
     });
     rep.run_sub(
         "partition",
-        &format!("all weak-order patterns of length 1..={} x every pivot position x strides {:?} (n<=6: all strides; n>6: unit + one rotating non-unit stride); element types i32 (spread table), i64 (extreme values), Heavy(Box<i64>) (non-Copy)", nmax, steps),
+        &format!("all weak-order patterns of length 1..={} x every pivot position x strides {:?} (n<=6: all strides; n>6: unit + one rotating non-unit stride); element types i32 (spread table), NotNone<i32> (the crate's own ordered wrapper, reached through remove_nan_mut; n<=7), i64 (extreme values), Heavy(Box<i64>) (non-Copy)", nmax, steps),
         cases,
         |c, lx| {
             let n = c.pat.len();
@@ -95,6 +140,9 @@ fn main() {
                     run_one(c, c.pat.iter().map(|&r| ext[r as usize]).collect::<Vec<i64>>(), 42, lx, "i64-extremes");
                 }
                 run_one(c, c.pat.iter().map(|&r| Heavy(Box::new(r as i64 * 3 - 4))).collect::<Vec<Heavy>>(), Heavy(Box::new(-1000)), lx, "Heavy");
+            }
+            if n <= 7 {
+                run_notnone(c, lx);
             }
         },
     );
